@@ -4,9 +4,13 @@ package harness
 
 import (
 	"bytes"
+	"crypto/md5"
 	"crypto/sha1"
+	"crypto/sha256"
+	"crypto/sha512"
 	"encoding/hex"
 	"fmt"
+	"hash"
 	"io"
 	"os"
 	"os/exec"
@@ -70,7 +74,8 @@ type c13Case struct {
 	Fault  string  `json:"fault"` // none, flip, prefix, tail, rename, wrong-root, wrong-data, crash-body, crash-header, live
 	Off    int     `json:"off,omitempty"`
 	Mask   int     `json:"mask,omitempty"`
-	Ops    []c13Op `json:"ops,omitempty"` // Fault "history": operations on several entries of one directory in one process
+	Hash   string  `json:"hash,omitempty"` // digest function of the entry: "" = sha1 (what cmd/gts uses), md5, sha256, sha512
+	Ops    []c13Op `json:"ops,omitempty"`  // Fault "history": operations on several entries of one directory in one process
 }
 
 // c13Op: one step of a history. Kinds: write (create key Key with a body of Len bytes, close; Twice closes again),
@@ -111,17 +116,36 @@ func c13Body(kind string, n, seed int) []byte {
 	}
 }
 
-func c13Digests(seed int) (rsum, dsum []byte) {
-	a := sha1.Sum([]byte(fmt.Sprintf("root-%d", seed)))
-	b := sha1.Sum([]byte(fmt.Sprintf("data-%d", seed)))
-	return a[:], b[:]
+func c13NewHash(name string) hash.Hash {
+	switch name {
+	case "md5":
+		return md5.New()
+	case "sha256":
+		return sha256.New()
+	case "sha512":
+		return sha512.New()
+	}
+	return sha1.New()
 }
 
-func c13Name(rsum, dsum []byte) string {
-	h := sha1.New()
+func c13DigestsFor(seed int, name string) (rsum, dsum []byte) {
+	h := c13NewHash(name)
+	h.Write([]byte(fmt.Sprintf("root-%d", seed)))
+	rsum = h.Sum(nil)
+	h.Reset()
+	h.Write([]byte(fmt.Sprintf("data-%d", seed)))
+	return rsum, h.Sum(nil)
+}
+
+func c13Digests(seed int) (rsum, dsum []byte) { return c13DigestsFor(seed, "") }
+
+func c13NameFor(rsum, dsum []byte, name string) string {
+	h := c13NewHash(name)
 	h.Write(append(append([]byte{}, rsum...), dsum...))
 	return hex.EncodeToString(h.Sum(nil))
 }
+
+func c13Name(rsum, dsum []byte) string { return c13NameFor(rsum, dsum, "") }
 
 type c13Entry struct {
 	body     []byte
@@ -185,7 +209,7 @@ func c13Splits(n, chunks int) [][2]int {
 }
 
 func c13Make(c c13Case) (*c13Entry, *Violation) {
-	key := fmt.Sprintf("%s/%d/%d/%d/%d", c.Body, c.Len, c.Seed, c.Chunks, c.Level)
+	key := fmt.Sprintf("%s/%d/%d/%d/%d/%s", c.Body, c.Len, c.Seed, c.Chunks, c.Level, c.Hash)
 	if e, ok := c13Cache[key]; ok {
 		return e, nil
 	}
@@ -193,11 +217,11 @@ func c13Make(c c13Case) (*c13Entry, *Violation) {
 	os.RemoveAll(dir)
 	os.MkdirAll(dir, 0o755)
 	body := c13Body(c.Body, c.Len, c.Seed)
-	rsum, dsum := c13Digests(c.Seed)
+	rsum, dsum := c13DigestsFor(c.Seed, c.Hash)
 	e := &c13Entry{body: body}
 	var v *Violation
 	if pi := guard(func() {
-		f, err := cache.CreateLevel(dir, sha1.New(), rsum, dsum, c.Level)
+		f, err := cache.CreateLevel(dir, c13NewHash(c.Hash), rsum, dsum, c.Level)
 		if err != nil {
 			v = viol("create", "CreateLevel failed: %v", err)
 			return
@@ -215,14 +239,14 @@ func c13Make(c c13Case) (*c13Entry, *Violation) {
 			v = viol("close", "Close failed: %v", err)
 			return
 		}
-		e.finished, _ = os.ReadFile(filepath.Join(dir, c13Name(rsum, dsum)))
+		e.finished, _ = os.ReadFile(filepath.Join(dir, c13NameFor(rsum, dsum, c.Hash)))
 	}); pi != nil {
 		return nil, panicViolation("Create/Write/Close", pi)
 	}
 	if v != nil {
 		return nil, v
 	}
-	if len(e.finished) < 60 {
+	if len(e.finished) < 3*c13NewHash(c.Hash).Size() {
 		return nil, viol("create", "finished entry has only %d bytes", len(e.finished))
 	}
 	c13Cache[key] = e
@@ -407,11 +431,11 @@ func c13Check(c c13Case) *Violation {
 	if v != nil {
 		return v
 	}
-	rsum, dsum := c13Digests(c.Seed)
+	rsum, dsum := c13DigestsFor(c.Seed, c.Hash)
 	openR, openD := rsum, dsum
 	image := append([]byte(nil), e.finished...)
-	name := c13Name(rsum, dsum)
-	hdr := 60
+	name := c13NameFor(rsum, dsum, c.Hash)
+	hdr := 3 * c13NewHash(c.Hash).Size()
 	switch c.Fault {
 	case "none":
 	case "flip":
@@ -441,14 +465,14 @@ func c13Check(c c13Case) *Violation {
 		}
 	case "rename":
 		// the finished entry of (root,data) stored under the name of another pair and opened as that pair
-		openR, openD = c13Digests(c.Seed + 1000)
-		name = c13Name(openR, openD)
+		openR, openD = c13DigestsFor(c.Seed+1000, c.Hash)
+		name = c13NameFor(openR, openD, c.Hash)
 	case "wrong-root":
-		openR, _ = c13Digests(c.Seed + 1000)
-		name = c13Name(openR, openD)
+		openR, _ = c13DigestsFor(c.Seed+1000, c.Hash)
+		name = c13NameFor(openR, openD, c.Hash)
 	case "wrong-data":
-		_, openD = c13Digests(c.Seed + 1000)
-		name = c13Name(openR, openD)
+		_, openD = c13DigestsFor(c.Seed+1000, c.Hash)
+		name = c13NameFor(openR, openD, c.Hash)
 	case "crash-body":
 		// crash before finalisation: placeholder (zero) header + a prefix of the body
 		if hdr+c.Off > len(e.finished) {
@@ -482,7 +506,7 @@ func c13Check(c c13Case) *Violation {
 	var got []byte
 	var rerr error
 	if pi := guard(func() {
-		f, err = cache.Open(dir, sha1.New(), openR, openD)
+		f, err = cache.Open(dir, c13NewHash(c.Hash), openR, openD)
 		if err == nil {
 			got, rerr = io.ReadAll(f)
 		}
@@ -511,6 +535,9 @@ func c13Check(c c13Case) *Violation {
 
 func c13Classify(c c13Case) (bool, []string) {
 	labels := []string{"fault:" + c.Fault, "body:" + c.Body}
+	if c.Hash != "" {
+		labels = append(labels, "hash:"+c.Hash)
+	}
 	nt := false
 	switch c.Fault {
 	case "history":
@@ -524,12 +551,13 @@ func c13Classify(c c13Case) (bool, []string) {
 		// non-trivial: at least two opens and a read (several entries alive at once)
 		return kinds["open"] >= 2 && kinds["read"] >= 1, append(labels, fmt.Sprintf("ops=%d", len(c.Ops)))
 	case "flip":
+		hs := c13NewHash(c.Hash).Size()
 		switch {
-		case c.Off < 20:
+		case c.Off < hs:
 			labels = append(labels, "flip-root-digest")
-		case c.Off < 40:
+		case c.Off < 2*hs:
 			labels = append(labels, "flip-data-digest")
-		case c.Off < 60:
+		case c.Off < 3*hs:
 			labels = append(labels, "flip-body-digest")
 			nt = true
 		default:
@@ -539,7 +567,7 @@ func c13Classify(c c13Case) (bool, []string) {
 	case "crash-body", "crash-header", "live", "write-limit":
 		nt = true
 	case "prefix", "tail":
-		nt = c.Off >= 60 || c.Fault == "tail"
+		nt = c.Off >= 3*c13NewHash(c.Hash).Size() || c.Fault == "tail"
 	}
 	return nt, labels
 }
@@ -591,6 +619,53 @@ func TestC13(t *testing.T) {
 			}
 		}
 	}
+	// other digest functions than the SHA-1 of cmd/gts (the header is three digests long, whatever their size): the whole
+	// fault list on small bodies, the round trip and the header faults on a large one
+	eh := enumPart(t, c13Prop, st, "other-hashes")
+	for _, hn := range []string{"md5", "sha256", "sha512"} {
+		hs := c13NewHash(hn).Size()
+		for _, b := range []bodyCfg{{"empty", 0, true}, {"one", 1, true}, {"text", 200, true}, {"random", 900, true}, {"random", 70 * 1024, false}} {
+			for _, chunks := range []int{1, 3, -1} {
+				base := c13Case{Body: b.kind, Len: b.n, Seed: 1, Chunks: chunks, Level: -1, Hash: hn}
+				ent, v := c13Make(base)
+				if v != nil {
+					t.Errorf("VIOLATION C13/setup [%s]: %s", v.Kind, v.Msg)
+					writeFail("C13", "other-hashes", mustJSON(base), v)
+					st.Violations++
+					return
+				}
+				mk := func(fault string, off, mask int) c13Case {
+					c := base
+					c.Fault, c.Off, c.Mask = fault, off, mask
+					return c
+				}
+				cases := []c13Case{mk("none", 0, 0), mk("rename", 0, 0), mk("wrong-root", 0, 0), mk("wrong-data", 0, 0)}
+				for k := 0; k < 6; k++ {
+					cases = append(cases, mk("tail", k, 0))
+				}
+				for k := range ent.live {
+					cases = append(cases, mk("live", k, 0))
+				}
+				if chunks == 1 {
+					for j := 0; j <= 3*hs; j++ {
+						cases = append(cases, mk("crash-header", j, 0))
+					}
+					size := len(ent.finished)
+					for o := 0; o < size; o++ {
+						if b.exhaustive || o < 3*hs+40 || o >= size-8 || o%997 == 0 {
+							cases = append(cases, mk("flip", o, 0x01), mk("prefix", o, 0))
+						}
+					}
+				}
+				for _, c := range cases {
+					if !eh.try(c) {
+						return
+					}
+				}
+			}
+		}
+	}
+	eh.done(false)
 	e := enumPart(t, c13Prop, st, "fault-enumeration")
 	exhaustiveAll := true
 	for _, b := range bodies {
